@@ -250,7 +250,7 @@ func obligationInProp(ob *Obligation, prop string, closure map[string]bool, root
 	// panic-freedom of a caller may rest on any postcondition of any callee
 	// (e.g. merge is only safe on arguments that similar() accepted): C03
 	// includes them all
-	if prop == "C03" && ob.Class == "post" {
+	if (prop == "C03" || prop == "C14") && ob.Class == "post" {
 		return true
 	}
 	return false
